@@ -253,7 +253,9 @@ def gen_sizes(rng):
     out = []
     for _ in range(rng.randint(1, 12)):
         off, n = rng.choice(dists)
-        out.append(off + brand(rng, 0, (1 << n) - 1))
+        # empty sections are common (HfGlobal of a Modular frame, empty groups) and share their offset
+        # with the next section
+        out.append(0 if rng.random() < 0.3 else off + brand(rng, 0, (1 << n) - 1))
     return out
 
 
